@@ -119,7 +119,8 @@ pub fn judge_cell(ctx: &mut Ctx, layer: &'static Layer, depth: u8, h: u64) {
 
 fn rejections(ctx: &mut Ctx, layer: &'static Layer, depth: u8) {
   let nh = n_hash(depth);
-  for &bad in [nh, nh + 1, nh + 5, 2 * nh, 16u64 << (2 * depth), u64::MAX, u64::MAX >> 1].iter() {
+  let mut rng = Rng::new(ctx.seed, 41_000 + depth as u64);
+  for &bad in bad_cell_numbers(&mut rng, depth).iter() {
     if bad < nh { continue; }
     ctx.eval();
     if catch(|| layer.neighbours(bad, false)).is_ok() { ctx.violation("neighbours-accepts-cell-number>=n_hash", Case::new("bad").u("depth", depth as u64).u("h", bad).u("dir", 9), String::new()); } else { ctx.bump("rejections-observed"); }
